@@ -168,6 +168,9 @@ pub enum Op {
     SampleMasses { s: usize },
     /// generate_sample_from_rng with a stability test that always fails: Err(Unstable) after exactly get_dimension() draws
     FromRngUnstable { s: usize },
+    /// a SECOND sampler for the same graph whose signature rows are assigned to the edges in rotated order (same edge count,
+    /// loop count and multiset of rows, different routing) is built and sampled
+    SampleRerouted { s: usize },
     CloneS { s: usize },
     GetDim { s: usize },
     Json { s: usize },
@@ -190,6 +193,7 @@ pub fn op_alphabet() -> Vec<Op> {
         v.push(Op::FromRngZeros { s });
         v.push(Op::SampleMasses { s });
         v.push(Op::FromRngUnstable { s });
+        v.push(Op::SampleRerouted { s });
         v.push(Op::CloneS { s });
         v.push(Op::GetDim { s });
         v.push(Op::Json { s });
@@ -222,6 +226,21 @@ pub fn apply(w: &World, rs: &mut Vec<Routed>, op: Op) -> Vec<u64> {
             Ok(b) => b,
             Err(e) => vec![u64::MAX, fnv(&e)],
         },
+        Op::SampleRerouted { s } => {
+            let k = &w.kins[s];
+            let ne = k.sig.len();
+            let mut k2 = k.clone();
+            for e in 0..ne {
+                k2.sig[e] = k.sig[(e + 1) % ne].clone();
+            }
+            match route(&w.cases[s], &k2) {
+                Ok(r2) => match outcome_bits(&r2.sampler.sample_with(&w.points[s][0], &rs[s].ed, &Settings::META, &NullLogger)) {
+                    Ok(b) => b,
+                    Err(e) => vec![u64::MAX, fnv(&e)],
+                },
+                Err(e) => vec![u64::MAX - 1, fnv(&e)],
+            }
+        }
         Op::FromRngUnstable { s } => {
             let mut rng = Scripted { vals: w.script[s].clone(), pos: 0 };
             let st = Settings { stability: Some(-1.0), debug: false, metadata: true };
@@ -820,14 +839,14 @@ pub fn run_c17(ctx: &Ctx) -> i32 {
     extra.insert("source_scan_global_state_candidates(assumption only)".into(), json!(scan));
     let fin = Finish {
         level: "model_checking",
-        rule: format!("(histories) all sequences up to depth {} over a 68-operation alphabet on two samplers (sample x 8 settings x 3 points incl. u = 1-2^-53, sample with different edge data, sample with the other mass pattern (None <-> Some, signed), from_rng with two scripted RngCores incl. exact zeros, from_rng under a stability test that always fails, clone, get_dimension, JSON and CBOR round trips, in-place rebuild of a different sampler with the same edge count), each re-executed on freshly built samplers and compared bit-for-bit with the same call made first on a fresh sampler, serialisations compared after every step; (schedules) all interleavings of 2-3 real OS threads sharing a sampler with at most p preemptions, scheduling points = every scalar operation, under an own baton scheduler with DFS over schedules, a planted impurity must be caught first; (configurations) all E! hash iteration orders; child processes; a corpus of samples through a second build of momtrop without any cargo feature. states = histories + schedules, transitions = operations + scheduling decisions", ctx.tier.pick(3, 4)),
+        rule: format!("(histories) all sequences up to depth {} over a 70-operation alphabet on two samplers (sample x 8 settings x 3 points incl. u = 1-2^-53, sample with different edge data, sample with the other mass pattern (None <-> Some, signed), from_rng with two scripted RngCores incl. exact zeros, from_rng under a stability test that always fails, a second sampler of the same graph with rotated signature rows, clone, get_dimension, JSON and CBOR round trips, in-place rebuild of a different sampler with the same edge count), each re-executed on freshly built samplers and compared bit-for-bit with the same call made first on a fresh sampler, serialisations compared after every step; (schedules) all interleavings of 2-3 real OS threads sharing a sampler with at most p preemptions, scheduling points = every scalar operation, under an own baton scheduler with DFS over schedules, a planted impurity must be caught first; (configurations) all E! hash iteration orders; child processes; a corpus of samples through a second build of momtrop without any cargo feature. states = histories + schedules, transitions = operations + scheduling decisions", ctx.tier.pick(3, 4)),
         states: acc.get("histories") + acc.get("schedules"),
         transitions: acc.get("operations") + acc.get("schedules"),
         traces: acc.get("histories") + acc.get("schedules"),
         evaluations: acc.get("histories") + acc.get("schedules"),
         distinct_nontrivial: acc.get("histories") + acc.get("schedules"),
         exhaustive: acc.get("schedule_cap_hit") == 0,
-        bounds: json!({"history_depth": ctx.tier.pick(3, 4), "operation_alphabet": 68, "preemption_bounds": acc.hist.get("preemption_bound_completed"), "threads": "2 (thorough: also 3)"}),
+        bounds: json!({"history_depth": ctx.tier.pick(3, 4), "operation_alphabet": 70, "preemption_bounds": acc.hist.get("preemption_bound_completed"), "threads": "2 (thorough: also 3)"}),
         assumptions: vec![
             "preemption happens only at scalar-operation boundaries of the generic code; non-generic f64 code (Gamma quantile, component search) has no scheduling points and no shared state today (source scan reported in coverage, as an assumption); a separate free-running pass (four OS threads, uncontrolled, supplementary - sampling, not exhaustive) runs the same bodies and would show a data race there".into(),
         ],
